@@ -205,3 +205,14 @@ Proof.
   split; [repeat constructor; vm_compute; reflexivity|].
   split; vm_compute; reflexivity.
 Qed.
+
+(* the decision of the theorems above (decision_g) IS what the regenerated get_discrete_policy_calculator returns on   *)
+(* the conditional-value array, for the variable_info of a model without filter-restricted variables                    *)
+From LCM Require Import Gen.SimulateKernels Proofs.C18_AxesFilterFree.
+Theorem C02_code_policy_calculator_of_a_model_without_filters :
+  forall (dst dch cst cch : list (string * grid)) uf colsD colsC,
+  NoDup (map fst (dst ++ dch ++ cst ++ cch)) ->
+  get_discrete_policy_calculator (vi_of dst dch cst cch) (ccv_arr dst dch cst cch uf colsD colsC) None
+  = decision_g dst dch cst cch uf colsD colsC.
+Proof. exact decision_is_the_policy_calculators. Qed.
+Print Assumptions C02_code_policy_calculator_of_a_model_without_filters.
